@@ -778,7 +778,12 @@ def rule_propagation(model):
                 isinstance(t, ast.Attribute) and t.attr in GUARD_ATTRS and
                 isinstance(t.value, ast.Name) and t.value.id == 'self'
                 for t in n.targets):
-            for x in ast.walk(n.value):
+            srcs = [n.value]
+            if isinstance(n.value, ast.Name):
+                # guard = namespace.guarded_getattr (when none was given)
+                srcs = [d for d in model.local_defs(init, n.value.id)
+                        if isinstance(d, ast.AST)]
+            for x in [y for s_ in srcs for y in ast.walk(s_)]:
                 if _is_guard_source(x):
                     base = x.value if isinstance(x, ast.Attribute) \
                         else x.args[0]
